@@ -26,17 +26,18 @@ pub struct Prep {
 }
 
 pub fn prepare(ts: &TaskSet) -> Option<Prep> {
+    let kmax = ts.kmax();
     let built = crate::analysis::guarded(|| {
         let mut adm = Vec::new();
         for t in &ts.tasks {
             let ab = t.arr.build();
-            adm.push(Adm::tabulate(&*ab, SCAN, KMAX));
+            adm.push(Adm::tabulate(&*ab, SCAN, kmax));
         }
         adm
     })?;
     let dense: Vec<Vec<u64>> = built
         .iter()
-        .map(|a| a.dense(MAX_REL_HORIZON, KMAX))
+        .map(|a| a.dense(MAX_REL_HORIZON, kmax))
         .collect();
     // observed busy window of the synchronous dense run
     let mut jobs = Vec::new();
@@ -84,9 +85,20 @@ pub fn prepare(ts: &TaskSet) -> Option<Prep> {
     // last release: a busy window that extends past that point was not observed
     if let Some(l) = l_obs {
         for dn in &dense {
-            if dn.len() >= KMAX && *dn.last().unwrap() < l {
+            if dn.len() >= kmax && *dn.last().unwrap() < l {
                 l_obs = None;
             }
+        }
+    }
+    // independent re-check of the dense sequences (schedules that reuse a shifted prefix of one
+    // are not re-validated pair by pair, see `is_shifted_dense_prefix`)
+    for (i, dn) in dense.iter().enumerate() {
+        if let Err(e) = built[i].validate(dn) {
+            eprintln!(
+                "HARNESS-ERROR: dense release sequence of {} is not admissible: {}",
+                ts.tasks[i].arr, e
+            );
+            std::process::exit(2);
         }
     }
     Some(Prep {
@@ -94,6 +106,20 @@ pub fn prepare(ts: &TaskSet) -> Option<Prep> {
         dense,
         l_obs,
     })
+}
+
+/// `rel` is a prefix of `dense` shifted by a constant (admissible whenever `dense` is: every pair
+/// constraint of a prefix is a pair constraint of the whole, and the constraints only involve
+/// differences of release times).
+pub fn is_shifted_dense_prefix(rel: &[u64], dense: &[u64]) -> bool {
+    if rel.is_empty() {
+        return true;
+    }
+    if rel.len() > dense.len() || rel[0] < dense[0] {
+        return false;
+    }
+    let shift = rel[0] - dense[0];
+    rel.iter().zip(dense.iter()).all(|(r, dn)| *r == *dn + shift)
 }
 
 #[derive(Clone, Debug, PartialEq, Eq)]
@@ -543,7 +569,24 @@ pub fn gen_schedule(
     let mut jobs: Vec<JobSpec> = Vec::new();
     let mut rs = RelStats::default();
     for i in 0..n {
-        let rel = generate(&prep.adm[i], &strategies[i], horizon, KMAX, rng, &mut rs);
+        // `Dense { phase }` is the tabulated dense sequence shifted by `phase` (the constraints
+        // are translation-invariant); reuse it instead of recomputing it in O(n^2)
+        let rel = match strategies[i] {
+            RelStrategy::Dense { phase } => {
+                let rel: Vec<u64> = prep.dense[i]
+                    .iter()
+                    .map(|r| *r + phase)
+                    .take_while(|r| *r <= horizon)
+                    .collect();
+                for w in rel.windows(2) {
+                    if w[0] == w[1] {
+                        rs.simultaneous += 1;
+                    }
+                }
+                rel
+            }
+            _ => generate(&prep.adm[i], &strategies[i], horizon, ts.kmax(), rng, &mut rs),
+        };
         if matches!(strategies[i], RelStrategy::Dense { phase: 0 }) && !rel.is_empty() {
             c.inc("fault.synchronous_burst");
         }
